@@ -1,6 +1,7 @@
 """C03 - datasheet timing minimums on the DRAM bus (whole core, spacing monitor in DRAM clocks)."""
 import time
-from engine import runner
+from engine import runner, fhdl
+from engine.explore import Harness, Violation
 
 PROP = "C03"
 ASSUME = [
@@ -90,9 +91,110 @@ def configs(tier):
     return cs
 
 
+class TimingCtlHarness(Harness):
+    """The multiplexer's activate gate on its own: tXXDController(tRRD) + tFAWController(tFAW) wired as in core/multiplexer.py
+    (both see the same `valid`; an ACTIVATE is only issued while both are ready).  Every activate pattern the gate admits, unbounded."""
+    def __init__(self, trrd=None, tfaw=8):
+        from migen import Module, Signal
+        from litedram.common import tXXDController, tFAWController
+        m = Module()
+        m.submodules.trrd = self.trrd_c = tXXDController(trrd)
+        m.submodules.tfaw = self.tfaw_c = tFAWController(tfaw)
+        self.valid = Signal()
+        m.comb += [self.trrd_c.valid.eq(self.valid), self.tfaw_c.valid.eq(self.valid)]
+        self.c = c = fhdl.compile_harness(m, [self.trrd_c.ready, self.tfaw_c.ready])
+        self.i_valid = c.ii[self.valid]
+        self.r_r1 = c.rd(self.trrd_c.ready); self.r_r2 = c.rd(self.tfaw_c.ready)
+        self.t_rrd = trrd or 1; self.t_faw = tfaw
+        self.base = list(c.base_inputs); self.cov = {}
+
+    def env0(self):
+        return ((0,) * (self.t_faw - 1), 1)     # activates of the previous tFAW-1 cycles (newest first); gate ready in the coming cycle
+
+    def menu(self, S, E):
+        return [0, 1] if E[1] else [0]
+
+    def describe(self, ch): return "ACTIVATE" if ch else "-"
+
+    def drive(self, S, E, ch):
+        I = list(self.base); I[self.i_valid] = ch
+        return tuple(I)
+
+    def observe(self, S, E, ch, I, O, S2):
+        hist, _ = E
+        if ch:
+            n = 1 + sum(hist)
+            if n > 4:
+                self.report("timing.tFAW", "%d ACTIVATEs inside %d consecutive cycles (tFAW = %d cycles allows four)" % (n, self.t_faw, self.t_faw), timing="tFAW")
+            for d in range(1, self.t_rrd):
+                if d <= len(hist) and hist[d - 1]:
+                    self.report("timing.tRRD", "ACTIVATE %d cycles after the previous one, tRRD = %d" % (d, self.t_rrd), timing="tRRD")
+            self.cov["act"] = self.cov.get("act", 0) + 1
+        hist = ((ch,) + hist)[:self.t_faw - 1]
+        # ready of the next cycle = registered value after this edge
+        nxt = self.c.peek(S2, tuple(self.base))
+        rdy = self.r_r1(S2, tuple(self.base), nxt) and self.r_r2(S2, tuple(self.base), nxt)
+        # the gate must not starve: with fewer than 4 activates in the last tFAW cycles and tRRD elapsed it has to open again (checked as liveness)
+        return (hist, 1 if rdy else 0), (2 if rdy else 0) | 1
+
+    def coverage(self): return dict(self.cov)
+
+
+class XXDHarness(Harness):
+    """tXXDController alone under the discipline of its re-triggered uses (tWTR, tCCD: `valid` may come while not ready, e.g. a second
+    write while the write-to-read window of the first is still running): ready must stay low until txxd cycles after the LAST valid."""
+    def __init__(self, txxd=3):
+        from litedram.common import tXXDController
+        self.m = m = tXXDController(txxd)
+        self.c = c = fhdl.compile_harness(m, [m.ready])
+        self.i_valid = c.ii[m.valid]; self.r_ready = c.rd(m.ready)
+        self.t = txxd; self.base = list(c.base_inputs); self.cov = {}
+
+    def env0(self): return (self.t,)            # cycles since the last valid, saturating at txxd
+
+    def menu(self, S, E): return [0, 1]
+
+    def describe(self, ch): return "valid" if ch else "-"
+
+    def drive(self, S, E, ch):
+        I = list(self.base); I[self.i_valid] = ch
+        return tuple(I)
+
+    def observe(self, S, E, ch, I, O, S2):
+        age = E[0]
+        rdy = self.r_ready(S, I, O)
+        if rdy and age < self.t:
+            self.report("timing.txxd_ready_early", "ready %d cycles after the last valid, %d required" % (age, self.t), timing="tXXD")
+        return ((1 if ch else min(self.t, age + 1)),), 0
+
+    def coverage(self): return dict(self.cov)
+
+
+def build_xxd(**kw):
+    return XXDHarness(**kw)
+
+
+def build_timing(**kw):
+    return TimingCtlHarness(**kw)
+
+
+def timing_configs(tier):
+    if tier == "quick":
+        return [(None, 5), (None, 8), (2, 8), (3, 11), (2, 11), (4, 16)]
+    return [(r, f) for f in range(5, 21) for r in (None, 2, 3, 4, 5) if (r or 1) * 3 < f]
+
+
 def run(tier, seed, only=None):
     t0 = time.time()
     jobs = []
+    for t in ([1, 2, 3, 5] if tier == "quick" else range(1, 17)):
+        name = "txxd-%d-retriggered" % t
+        if only and only not in name: continue
+        jobs.append((runner.mc_run, (PROP, "checks.c03", "build_xxd", dict(txxd=t)), dict(name=name, tier=tier, seed=seed, max_states=100_000)))
+    for trrd, tfaw in timing_configs(tier):
+        name = "gate-tRRD%s-tFAW%d" % (trrd or 0, tfaw)
+        if only and only not in name: continue
+        jobs.append((runner.mc_run, (PROP, "checks.c03", "build_timing", dict(trrd=trrd, tfaw=tfaw)), dict(name=name, tier=tier, seed=seed, max_states=2_000_000, liveness=[("activate gate closed -> open again", 1, 2)])))
     for name, kw, ms in configs(tier):
         if only and only not in name: continue
         jobs.append((runner.mc_run, (PROP, "checks.core", "build", kw), dict(name=name, tier=tier, seed=seed, max_states=ms)))
